@@ -43,14 +43,14 @@ THEOREM_CLASSES = {
     "C17_objects_unary": "main", "C17_objects_binary": "main", "C17_objects_shift_rotate": "main", "C17_objects_division": "main",
     "C17_objects_pow_scalar": "main",
     "C17_frombase_uniform": "corollary", "C17_frombase_guard_needed": "refutation",
-    "C17_literal_split_partition": "main", "C17_literal_text_exact": "main",
+    "C17_literal_split_partition": "main", "C17_literal_text_exact": "main", "C17_literal_malformed_exact": "main", "C17_literal_match_check_needed": "refutation",
     "C17_rotate_reduction_needed": "refutation", "C17_upowmod_mulmod_needed": "refutation", "C17_literal_check_needed": "refutation",
 }
 ALLOWED_AXIOMS = []
 TRUSTED_BASE = [
     "coqc 8.16.1 kernel (vm_compute used for parameter facts; no native_compute)",
     "no axioms: every theorem of coq/C17/Properties.v is 'Closed under the global context'",
-    "policy discriminators scraped into Gen.v (upowmod_mulmod, rot_reduces_count, dec_literal_checked, frombase_short_guarded): the four repaired functions are modelled for both policies, the exact theorems are proved from the fact that the scraped policy is the repaired one and the `_needed` theorems refute the other policy",
+    "policy discriminators scraped into Gen.v (upowmod_mulmod, rot_reduces_count, dec_literal_checked, frombase_short_guarded, literal_match_checked): the five repaired functions are modelled for both policies, the exact theorems are proved from the fact that the scraped policy is the repaired one and the `_needed` theorems refute the other policy",
     "translator checks/C17.py:gen (regex scrape of bint(<bits>) in utils/bn.lua, of the word-size default and of the BASE_LETTERS string in thirdparty/bint.lua)",
     "extraction: Require Extraction + ExtrOcamlBasic only (bool,option,unit,list,prod,sumbool,sumor mapped to OCaml; Z/N/positive/nat stay Coq inductives); no Extract Constant of our own",
     "ocaml/zutil.ml + coq/C17/driver.ml (hex text <-> extracted Z), harness/C17/ops.lua (calls bn/bint), OCaml 4.13.1, gcc (interpreter rebuilt from /repo/src)",
@@ -135,6 +135,15 @@ def gen(ctx):
         dec_checked = False
     else:
         raise RuntimeError("cannot classify the decimal branch of bn.from (range test present or not)")
+    asserts = re.findall(r"assert\(([^,()]*(?:\([^()]*\))?[^,()]*),\s*'malformed (binary|hexadecimal) number'\)", bn)
+    kinds = sorted(k for _, k in asserts)
+    conds = set(c.strip() for c, _ in asserts)
+    if kinds == ["binary", "hexadecimal"] and conds == {"neg ~= nil"}:
+        lit_checked = True
+    elif kinds == ["binary", "hexadecimal"] and conds == {"int"}:
+        lit_checked = False
+    else:
+        raise RuntimeError("cannot classify the assertions after the literal pattern matches of bn.from: %r" % (asserts,))
     fb = fbody(bint, "function bint.frombase(")
     if re.search(r"if\s+#s\s*<\s*step\s+and\s+s:find\('\^\[\+-\]\?%w\+\$'\)\s+then", fb):
         fb_guarded = True
@@ -155,7 +164,9 @@ def gen(ctx):
            "Definition dec_literal_checked : bool := %s.\n"
            "(* frombase takes the tonumber fast path only for short strings of the shape ^[+-]?%%w+$ (true) or for every short string (false) *)\n"
            "Definition frombase_short_guarded : bool := %s.\n"
-           % (bits, wordbits, "".join("%d%%Z :: " % c for c in codes), cb(upowmod_mulmod), cb(rot_reduces), cb(dec_checked), cb(fb_guarded)))
+           "(* bn.from asserts on the first capture of the literal pattern, nil exactly on a failed match (true), or on the second result, which is lpeglabel's truthy failure label on a failed match (false) *)\n"
+           "Definition literal_match_checked : bool := %s.\n"
+           % (bits, wordbits, "".join("%d%%Z :: " % c for c in codes), cb(upowmod_mulmod), cb(rot_reduces), cb(dec_checked), cb(fb_guarded), cb(lit_checked)))
     vlib.write_if_changed(os.path.join(vlib.coq_dir(ID), "Gen.v"), txt)
     set_width(bits, wordbits)
     global FP_SCALE
@@ -165,13 +176,13 @@ def gen(ctx):
     if changed and ctx is not None:
         ctx.note("source text of %s differs from the modelled revision: random budget x%d" % (", ".join(changed), FP_SCALE))
     return {"bint_bits": bits, "word_bits": wordbits, "base_letters": letters[:nletters],
-            "upowmod_mulmod": upowmod_mulmod, "rot_reduces_count": rot_reduces, "dec_literal_checked": dec_checked, "frombase_short_guarded": fb_guarded, "fingerprints": fps,
+            "upowmod_mulmod": upowmod_mulmod, "rot_reduces_count": rot_reduces, "dec_literal_checked": dec_checked, "frombase_short_guarded": fb_guarded, "literal_match_checked": lit_checked, "fingerprints": fps,
             "changed_since_modelled": changed}
 
 
 # normalised-text fingerprints (comments and white space removed) of the two files at the time the model was
 # written; a different fingerprint is NOT a violation, it multiplies the random budget of the run (DESIGN C17, tie)
-MODELLED_FP = {'thirdparty/bint.lua': 'af861fd234e39d92', 'utils/bn.lua': '7fecd89819776f71'}
+MODELLED_FP = {'thirdparty/bint.lua': 'af861fd234e39d92', 'utils/bn.lua': 'acfc9b752a31d570'}
 FP_SCALE = 1
 
 
@@ -468,7 +479,7 @@ def oracle_from_text(t):
     for rx, base, marks in ((BIN_RE, 2, b"bB"), (HEX_RE, 16, b"xX")):
         if re.match(rb"[-+]?0[" + marks + rb"]", t):
             sp = lit_split(t, rx)
-            if sp is None: return "!err raises" if base == 2 else None
+            if sp is None: return "!err raises"   # 'malformed binary / hexadecimal number' 
             neg, i, frac, ex = sp
             if frac is False and ex is None:
                 v = int(i.decode(), base); return limbs((-v if neg else v) % W)
@@ -786,7 +797,7 @@ def gen_cases(ctx):
         t = lit_text(k)
         add("literal-text", "split_bin" if k == "b" else "split_hex", t)
         add("literal-text", "from_text", t)
-    for t in (b"0b", b"0x", b"-0b", b"0b.", b"0b.1", b"0b1.", b"0x.8p1", b"0b1p", b"0b1p+", b"0B101", b"+0X1f", b"0b1p3", b"0b1.0", b"inf", b"-inf", b"NaN", b"-nan",
+    for t in (b"0x3 ", b"0xzz", b"0x1p", b"0b102", b" 0x3", b"0x 3", b"-0x1p+", b"0x1.8p1 ", b"0x\n", b"0b", b"0x", b"-0b", b"0b.", b"0b.1", b"0b1.", b"0x.8p1", b"0b1p", b"0b1p+", b"0B101", b"+0X1f", b"0b1p3", b"0b1.0", b"inf", b"-inf", b"NaN", b"-nan",
               b"12", b"-12", b"+12", b"0012", b"1.5", b"1e3", b"abc", b"", b"-", str(W // 2).encode(), str(W // 2 - 1).encode(), str(W).encode()):
         add("literal-text", "from_text", t)
         add("literal-text", "split_bin", t); add("literal-text", "split_hex", t)
